@@ -28,27 +28,70 @@ def run_traces(a, only=None):
             args += ["-only", only]
         out = vlib.run_harness(args, cwd=wd, timeout=3400)
         lines = vlib.read_ndjson(trace)
-        r = vlib.tlc("Trace_Runtime", "Trace_Runtime.cfg", workdir=wd, workers=1, timeout=3000, env_extra={"VERIF_TRACE": trace})
-        if r.error or r.violated:
-            raise vlib.Inconclusive("Trace_Runtime: %s" % (r.error or r.violated))
-        if r.distinct < len(lines):
-            raise vlib.Inconclusive("Trace_Runtime consumed %d of %d lines" % (r.distinct, len(lines)))
+        # long traces are validated in chunks cut at run boundaries ("init" re-initialises both monitors), several TLC processes at a
+        # time: a thorough trace has ~6 M lines; one TLC process per module needed half an hour and died near the end
+        chunks = _chunks(trace, lines, wd)
         bad = {}
-        for t in r.bad:
-            bad.setdefault(t[1], []).append(t[0])
+        r = _validate_chunks("Trace_Runtime", "Trace_Runtime.cfg", chunks, wd, bad)
         # conformance of the same events with the loop logic of Runtime.tla (RuntimeLogic.tla + ViewContexts.tla)
-        r2 = vlib.tlc("Trace_RuntimeConf", "Trace_RuntimeConf.cfg", workdir=wd, workers=1, timeout=3000, env_extra={"VERIF_TRACE": trace})
-        if r2.error or r2.violated:
-            raise vlib.Inconclusive("Trace_RuntimeConf: %s" % (r2.error or r2.violated))
-        if r2.distinct < len(lines):
-            raise vlib.Inconclusive("Trace_RuntimeConf consumed %d of %d lines" % (r2.distinct, len(lines)))
-        for t in r2.bad:
-            bad.setdefault(t[1], []).append(t[0])
+        r2 = _validate_chunks("Trace_RuntimeConf", "Trace_RuntimeConf.cfg", chunks, wd, bad)
         r.conf = r2
         _cache[key] = (lines, bad, r, out)
         return _cache[key]
     finally:
         shutil.rmtree(wd, ignore_errors=True)
+
+
+CHUNK = int(os.environ.get("VERIF_CHUNK", "60000"))
+
+
+def _chunks(trace, lines, wd):
+    """[(path, offset, nlines)]: the trace itself when short, else files of whole runs of about CHUNK lines."""
+    if len(lines) <= CHUNK + CHUNK // 2:
+        return [(trace, 0, len(lines))]
+    starts = [i for i, e in enumerate(lines) if e["ev"] == "init"]
+    cuts, last = [0], 0
+    for i in starts:
+        if i - last >= CHUNK:
+            cuts.append(i)
+            last = i
+    cuts.append(len(lines))
+    raw = open(trace).read().splitlines(True)
+    out = []
+    for k in range(len(cuts) - 1):
+        path = os.path.join(wd, "chunk%03d.ndjson" % k)
+        with open(path, "w") as f:
+            f.writelines(raw[cuts[k]:cuts[k + 1]])
+        out.append((path, cuts[k], cuts[k + 1] - cuts[k]))
+    return out
+
+
+def _validate_chunks(module, cfg, chunks, wd, bad):
+    from concurrent.futures import ThreadPoolExecutor
+
+    def one(c):
+        path, off, n = c
+        cwd = os.path.join(wd, "tlc_%s_%d" % (module, off))
+        os.makedirs(cwd, exist_ok=True)
+        r = vlib.tlc(module, cfg, workdir=cwd, workers=1, timeout=3000, env_extra={"VERIF_TRACE": path})
+        shutil.rmtree(cwd, ignore_errors=True)
+        return r
+    with ThreadPoolExecutor(max_workers=4) as ex:
+        results = list(ex.map(one, chunks))
+    agg = results[0]
+    for (path, off, n), r in zip(chunks, results):
+        if r.error or r.violated:
+            raise vlib.Inconclusive("%s: %s" % (module, r.error or r.violated))
+        if r.distinct < n:
+            raise vlib.Inconclusive("%s consumed %d of %d lines of the chunk at line %d" % (module, r.distinct, n, off))
+        for t in r.bad:
+            bad.setdefault(t[1] + off, []).append(t[0])
+        if r is not agg:
+            agg.generated += r.generated
+            agg.distinct += r.distinct
+            agg.depth = max(agg.depth, r.depth)
+            agg.wall += r.wall
+    return agg
 
 
 def model_check(rep, tier):
